@@ -7,6 +7,7 @@ import (
 	"strings"
 	"time"
 
+	"github.com/vipnode/vipnode/v2/agent"
 	"github.com/vipnode/vipnode/v2/ethnode"
 	"github.com/vipnode/vipnode/v2/pool"
 	"github.com/vipnode/vipnode/v2/pool/store"
@@ -437,5 +438,53 @@ func c19ManyHosts(ev *vlib.Evidence, driver string) {
 			bad = bad[:5]
 		}
 		ev.Violate("volume:reconnect-after-many-registrations:stale-or-wrong-uri", map[string]interface{}{"driver": driver, "registrations": n, "problems": bad})
+	}
+}
+
+// c18ManyInvalidPeers (C18): the pool declares dozens of the node's peers
+// invalid in one round: each of them, and nothing else, is un-trusted and
+// disconnected.
+func c18ManyInvalidPeers(ev *vlib.Evidence, nLocal, nInvalid int, strict bool) {
+	node := &vlib.FakeEth{ID: vlib.NewIdentity("c18self", 0).NodeID, NodeKind: ethnode.Geth, Full: true}
+	invalid := []string{}
+	active := []string{}
+	for i := 0; i < nLocal; i++ {
+		p := vlib.NewIdentity("vol-c18-peer", i)
+		pi := ethnode.PeerInfo{ID: p.NodeID}
+		pi.Network.RemoteAddress = fmt.Sprintf("198.51.100.%d:30303", 1+i%250)
+		node.PeerList = append(node.PeerList, pi)
+		if i < nInvalid {
+			invalid = append(invalid, p.NodeID)
+		} else {
+			active = append(active, fmt.Sprintf("enode://%s@198.51.100.%d:30303", p.NodeID, 1+i%250))
+		}
+	}
+	sort.Strings(invalid)
+	sp := &scriptedPool{}
+	sp.nextUpdate = func(n int, req pool.UpdateRequest) (*pool.UpdateResponse, error) {
+		return &pool.UpdateResponse{ActivePeers: append([]string{}, active...), InvalidPeers: append([]string{}, invalid...)}, nil
+	}
+	a := &agent.Agent{EthNode: node, NumHosts: 0, StrictPeers: strict, UpdateInterval: time.Hour}
+	if err := a.Start(sp); err != nil {
+		ev.Violate("volume:start-failed", map[string]interface{}{"err": err.Error()})
+		return
+	}
+	defer func() { a.Stop(); a.Wait() }()
+	calls := node.TakeCalls()
+	gotUntrust, gotDisc := idSet(calls, "RemoveTrustedPeer"), idSet(calls, "DisconnectPeer")
+	ev.Case(fmt.Sprintf("volume %d invalid of %d local peers strict=%v", nInvalid, nLocal, strict), true)
+	ev.Count("volume-invalid-peers", int64(nInvalid))
+	if strings.Join(gotUntrust, ",") != strings.Join(invalid, ",") || strings.Join(gotDisc, ",") != strings.Join(invalid, ",") {
+		extra := 0
+		want := map[string]bool{}
+		for _, id := range invalid {
+			want[id] = true
+		}
+		for _, id := range gotDisc {
+			if !want[id] {
+				extra++
+			}
+		}
+		ev.Violate("volume:dropped-set-with-many-invalid-peers", map[string]interface{}{"declared_invalid": nInvalid, "untrusted": len(gotUntrust), "disconnected": len(gotDisc), "dropped_although_not_declared": extra, "strict": strict})
 	}
 }
